@@ -58,7 +58,7 @@ Definition run_1801 (input impl : sx) : sx :=
   match dec_case input with
   | None => v_malformed
   | Some (view, reqs) =>
-    let fuel := fuel_bound view reqs in
+    let fuel := fuel_bound_fast view reqs in
     let m := enc_result (follow_links_opt go_match view fuel reqs) in
     match dec_impl impl with
     | None => v_specfail m (SL [flag k_term false])
@@ -120,7 +120,7 @@ Definition reinterpreted (s : bytes) : bool :=
   match s with c :: _ => N.eqb c bang | [] => false end ||
   existsb (N.eqb 92) s || negb (bytes_eqb (trim_space s) s).
 Definition result_reinterpreted (view : list node) (reqs : list bytes) : bool :=
-  match follow_links_opt go_match view (fuel_bound view reqs) reqs with
+  match follow_links_opt go_match view (fuel_bound_fast view reqs) reqs with
   | Ok (Some l) => existsb reinterpreted l
   | _ => false
   end.
@@ -150,7 +150,7 @@ Definition run_1805 (input impl : sx) : sx :=
       | Some walked =>
         let w := map comps walked in
         let missing := filter (fun q => negb (mem_c q w)) (needs view reqs) in
-        let fuel := fuel_bound view reqs in
+        let fuel := fuel_bound_fast view reqs in
         let s1 :=
           if negb (no_revisit go_match view fuel reqs) then [sig k_revisit]
           else if negb (lexical_safe view reqs) then [sig k_lexical]
@@ -209,7 +209,7 @@ Definition run_1806 (input impl : sx) : sx :=
     match dec_case (SL [v; rs]) with
     | None => v_malformed
     | Some (view, reqs) =>
-      let fuel := fuel_bound view reqs in
+      let fuel := fuel_bound_fast view reqs in
       let s :=
         if negb (no_revisit go_match view fuel reqs) then [sig k_revisit]
         else if negb (lexical_safe view reqs) then [sig k_lexical]
